@@ -158,3 +158,53 @@ func c08Retx(c *h.Ctx, id string, r *rand.Rand) {
 	}
 	c.Distinct(fmt.Sprintf("retx|life=%d|rounds=%d", lifeMs, rounds))
 }
+
+// c08DnlBurst: several hundred forwarded Interests expire within one maintenance period, so several
+// hundred dead-nonce records fall due together (the reaper removes a bounded number per tick by
+// design). Driven synchronously through the maintenance hook: after the records' lifetime and a
+// generous number of ticks the dead nonce list must be empty - map and expiry queue alike.
+func c08DnlBurst(c *h.Ctx, id string, r *rand.Rand) {
+	c.Eval(1)
+	s := fwsim.New(fwsim.Options{CsAdmit: false, CsServe: false, CsCapacity: 4, DnlLifetimeMs: 60,
+		FibAlgo: []string{"nametree", "hashtable"}[r.Intn(2)]})
+	s.AddFace(1, true, defn.PointToPoint)
+	s.AddFace(2, false, defn.PointToPoint)
+	px, _ := enc.NameFromStr("/x")
+	s.Fib.InsertNextHopEnc(px, 2, 1)
+	n := 120 + r.Intn(300)
+	life := 20
+	for i := 0; i < n; i++ {
+		nm, _ := enc.NameFromStr(fmt.Sprintf("/x/burst/%d", i))
+		nonce := uint32(1000 + i)
+		st := &fwStep{Kind: "interest", Face: 1, name: nm, Nonce: &nonce, LifeMs: &life}
+		p, err := s.Ingest(buildInterestWire(st), 1, nil, nil)
+		if err != nil {
+			c.Inconclusive("cannot ingest Interest: " + err.Error())
+			return
+		}
+		s.Interest(p)
+	}
+	s.TakeSends()
+	dnl := fwfw.VerifDnl(s.T)
+	time.Sleep(60 * time.Millisecond)
+	s.Reap() // the PIT entries expire unsatisfied: their out-record nonces become dead
+	recorded, _ := table.VerifDnlLen(dnl)
+	time.Sleep(100 * time.Millisecond) // past the dead-nonce lifetime
+	ticks := 0
+	for ; ticks < 40; ticks++ {
+		s.Reap()
+		if a, q := table.VerifDnlLen(dnl); a == 0 && q == 0 {
+			break
+		}
+	}
+	c.Count("dead_nonce_burst_records", int64(recorded))
+	if a, q := table.VerifDnlLen(dnl); a != 0 || q != 0 {
+		c.Violation("C08:dead-nonces-not-reclaimed", id, fmt.Sprintf("%d Interests expired together and left %d dead-nonce records; after their 60 ms lifetime and %d maintenance ticks %d records remain (%d still queued for expiry)", n, recorded, ticks, a, q), map[string]any{"interests": n})
+		return
+	}
+	if pit := s.T.GetNumPitEntries(); pit != 0 {
+		c.Violation("C08:pit-not-reclaimed", id, fmt.Sprintf("%d PIT entries remain after every Interest expired", pit), nil)
+		return
+	}
+	c.Distinct(fmt.Sprintf("dnl-burst|over-100=%v", recorded > 100))
+}
